@@ -52,7 +52,20 @@ def _family(e, zone_level=False):
     if isinstance(e, dns.exception.DNSException):
         return True
     if zone_level and isinstance(e, (ValueError, KeyError)) and not isinstance(e, UnicodeError):
-        return True
+        # "zone-semantic violations may additionally surface as the documented ValueError/KeyError":
+        # those are raised by the zone/transaction layer (non-origin SOA, wrong class, CNAME and
+        # other data), not by the reading of a token
+        import traceback
+
+        frames = [f for f in traceback.extract_tb(e.__traceback__) if "/dns/" in f.filename.replace("\\", "/")]
+        if not frames:
+            return False
+        fn = frames[-1].filename.replace("\\", "/").rsplit("/dns/", 1)[-1]
+        if fn in ("transaction.py", "zone.py", "versioned.py", "btreezone.py", "node.py"):
+            return True
+        if fn == "zonefile.py" and frames[-1].name.startswith("_check"):
+            return True
+        return False
     return False
 
 
@@ -313,7 +326,7 @@ _LEX = [
     "\t", " ", "\n", "\r\n", "٠", "١٢", "é", "。", "\ud800" if False else "�", "\x00", "\x7f",
     "alpn=h2", 'alpn="h2,h3"', "port=443", "port=65536", "key65535=a", "key65536", "mandatory=alpn", "no-default-alpn", "ipv4hint=1.2.3.4", "=x", "ech=!!!",
     "1-10", "1-10/2", "10-1", "1-", "-1-2", "1-10/0", "${0,3,d}", "${-1,0,x}", "${0,0,q}", "$", "${", "$$",
-    "20200101000000", "2020010100000", "0 0 0.000 N", "90 0 0 S 180 0 0 W 0m", "AQID", "====", "00-11-22-33-44-55", "gg",
+    "1" * 4400, "9" * 5000 + "h", "20200101000000", "2020010100000", "0 0 0.000 N", "90 0 0 S 180 0 0 W 0m", "AQID", "====", "00-11-22-33-44-55", "gg",
 ]
 
 
@@ -436,7 +449,11 @@ _ZLINES = [
     "www 60 IN CNAME ns1", "www IN 60 A 10.0.0.3", "mx MX 10 mail", "txt TXT \"hello world\" \"x\"", "txt2 TXT ( \"a\"\n \"b\" ) ; comment", "sub NS ns.sub", "ns.sub A 10.1.1.1",
     "$GENERATE 1-3 host$ A 10.0.0.$", "$GENERATE 1-5/2 h${0,3,x} CNAME t${1,0,d}.example.", "*.w A 10.9.9.9", "other.zone. A 1.1.1.1", "$ORIGIN sub.example.", "x A 10.2.2.2",
     "$INCLUDE /nonexistent", "$UNICODE 1", "TYPE65280 \\# 2 abcd", "g CLASS1 TYPE1 \\# 4 0a000001", "a 300 A 10.0.0.1 ; trailing", "", "; just a comment", "( )",
-    "$ORIGIN example", "$ORIGIN sub", "@ 300 IN SOA ns1 hostmaster ( 1 2 3 4\n 5 )", "dn DNAME target", "c CNAME x", "c A 1.2.3.4", "rr RRSIG A 8 2 300 20200101000000 20190101000000 1 example. AQID",
+    "$ORIGIN example", "$ORIGIN sub", "@ 300 IN SOA ns1 hostmaster ( 1 2 3 4\n 5 )", "dn DNAME target",
+    # out-of-range generic mnemonics and numbers in every position of a $GENERATE line and of a record line
+    "$GENERATE 1-2 g$ TYPE65536 \\# 0", "$GENERATE 1-2 g$ TYPE65535 \\# 0", "$GENERATE 1-2 g$ CLASS65536 A 10.0.0.$", "$GENERATE 1-2 g$ 4294967296 A 10.0.0.$",
+    "$GENERATE 1-2 g$ IN TYPE65536 \\# 0", "$GENERATE 1-2 g$", "$GENERATE 1-2", "$GENERATE 1-2 g$ A", "$GENERATE 2-1 g$ A 10.0.0.$", "$GENERATE 1-2/0 g$ A 10.0.0.$",
+    "t TYPE65536 \\# 0", "t CLASS65536 TYPE1 \\# 4 0a000001", "t 4294967296 A 10.0.0.1", "t IN 300 TYPE65536 \\# 0", "$TTL 4294967296", "$TTL", "c CNAME x", "c A 1.2.3.4", "rr RRSIG A 8 2 300 20200101000000 20190101000000 1 example. AQID",
 ]
 
 
